@@ -4,6 +4,7 @@ set -e
 A=$1
 cd /verif
 if git rev-parse -q --verify agent-$A >/dev/null; then
+  git checkout -q -- evidence 2>/dev/null || true   # locally rewritten evidence must not block the merge
   if ! git merge --no-edit agent-$A; then
     # only known_findings.json may conflict: take the union by id
     if git diff --name-only --diff-filter=U | grep -qx known_findings.json; then
